@@ -328,7 +328,8 @@ func spellRandom(t *rapid.T, toks []etok) string {
 				s = w.String()
 			}
 		}
-		sep := rapid.SampledFrom([]string{"", "", "", " ", " ", "  ", "\t", "\n", "\r\n", " /* c */ ", "/**/", "/* a+b */"}).Draw(t, "sep")
+		// every character up to the blank is whitespace for the expression tokenizer, the rarely typed ones included
+		sep := rapid.SampledFrom([]string{"", "", "", " ", " ", "  ", "\t", "\n", "\r\n", " /* c */ ", "/**/", "/* a+b */", "\f", "\v", " \x01 ", "\x1f", "\x00", "\r"}).Draw(t, "sep")
 		if rapid.IntRange(0, 9).Draw(t, "gencomment") == 0 {
 			sep = genBlockComment(t)
 		}
